@@ -9,7 +9,7 @@ func init() {
 			{Name: "H_C13_probe_k", Tier: "quick", What: "nlist=2, n=2, d=1, everything symbolic incl. k and nprobes (all int): full probe == exact top-k; p<nlist == exact top-k of the p nearest clusters; p+1 probes never worse rank by rank", Covers: []string{"full-probe", "partial-probe"}},
 			{Name: "H_C13_probe_th", Tier: "quick", What: "nlist=2, n=2 concrete vectors in every assignment pattern, threshold and query symbolic, nprobes in {1,2}", Covers: []string{"full-probe", "partial-probe"}},
 			{Name: "H_C13_probe_ops", Tier: "quick", What: "nlist=2, n=3 concrete vectors in every assignment pattern (empty clusters occur), none|Remove|Remove+Flush, id filter, k symbolic, nprobes in {1, 0}", Covers: []string{"full-probe", "partial-probe"}},
-			{Name: "H_C13_untrained", Tier: "quick", What: "Add / search before training and Train with too few vectors are errors", Covers: []string{"ran"}},
+			{Name: "H_C13_untrained", Tier: "quick", What: "nlist 1..4, d 1..2, 3 metrics: a fresh index is untrained; Add / search (default and full probe) before training and Train with too few vectors are errors and leave it untrained; after Train the index is empty and accepts Add", Covers: []string{"ran"}},
 			{Name: "H_C13_ivf_t", Tier: "thorough", What: "nlist=2, n=2: symbolic stored vectors x symbolic k x symbolic nprobes x id filter (no threshold, no removals)", Covers: []string{"full-probe", "partial-probe"}},
 			{Name: "H_C13_ivf_t_th", Tier: "thorough", What: "nlist=2, n=2: symbolic stored vectors x symbolic threshold, nprobes in {1, all}", Covers: []string{"full-probe", "partial-probe"}},
 			{Name: "H_C13_ivf_t3", Tier: "thorough", What: "nlist=3, n=2 symbolic stored vectors, symbolic k, nprobes in {1,2,3}", Covers: []string{"full-probe", "partial-probe"}},
